@@ -310,10 +310,10 @@ def gen_probe_program(rng, nprobes, pool=None):
 CELLS = {
     "class": "PerVM", "func": "PerVM", "const": "PerVM", "global": "PerVM", "static_prop": "PerVM",
     "static_var": "PerVM", "include_once": "PerVM", "exception_handler": "PerVM",
-    "userOutputEmitted": "ProcReset",
+    "userOutputEmitted": "ProcReset", "ob_level": "ProcReset",   # ob stack: flushed and popped by FlushAllBuffersFn at script end (/repo 7b31d88)
     "ini": "ProcSticky", "GLOBALS": "ProcSticky", "_GET": "ProcSticky", "_POST": "ProcSticky",
     "_SERVER": "ProcSticky", "_ENV": "ProcSticky", "_SESSION": "ProcSticky", "_COOKIE": "ProcSticky",
-    "_REQUEST": "ProcSticky", "ob_level": "ProcSticky", "putenv": "ProcSticky", "spl_autoload": "ProcSticky",
+    "_REQUEST": "ProcSticky", "putenv": "ProcSticky", "spl_autoload": "ProcSticky",
 }
 # (label, php A, cell written, php B, cell read)
 POLLUTERS = [
